@@ -1124,7 +1124,7 @@ func main() {
 			pool.offer(r, c)
 		}
 	}
-	runConcurrent(e, vlib.CaseRand(e.Seed, nTopo+1), pool, e.N(400, 3000))
+	runConcurrent(e, vlib.CaseRand(e.Seed, nTopo+1), pool, e.N(60, 1500))
 	e.Extra["shapes"] = shapes
 	e.Extra["topologies"] = nTopo
 	e.Extra["topologies_beaconed_by_real_extender"] = real
